@@ -188,4 +188,38 @@ pub fn run(ctx: &mut Ctx) {
             ctx.sample(sample_of(last, true));
         }
     }
+    // every ASCII byte (and one two-byte character) substituted for, and inserted before, every position of one
+    // valid specimen per type: characters outside the small exhaustive alphabet (`+`, space, `g`, `x`, …) at every position,
+    // through every construction path
+    let specimens: &[&str] = &["0123456789abcdefABCDEF0123456789", "a.b_c.D9", "a-b.c-d", ":1.42", "/a/b_9", "Member_9"];
+    let mut idx = 9_100_000_000u64;
+    for sp in specimens {
+        let chars: Vec<char> = sp.chars().collect();
+        for pos in 0..=chars.len() {
+            for c in (0u8..128).map(|b| b as char).chain(std::iter::once('é')) {
+                for insert in [false, true] {
+                    idx += 1;
+                    if pos == chars.len() && !insert {
+                        continue;
+                    }
+                    if !ctx.mine(idx) || !ctx.want(idx) {
+                        continue;
+                    }
+                    let mut v = chars.clone();
+                    if insert {
+                        v.insert(pos, c);
+                    } else {
+                        v[pos] = c;
+                    }
+                    let s: String = v.into_iter().collect();
+                    check_all(ctx, idx, &s, true);
+                    ctx.distinct(fnv(&s));
+                    ctx.count("substituted_specimens", 1);
+                    if idx % 499 == 0 {
+                        ctx.sample(sample_of(&s, true));
+                    }
+                }
+            }
+        }
+    }
 }
